@@ -8,10 +8,10 @@ CONSTANTS
  SubSet = {"dm"}
  StartedSet = {TRUE}
  Eager = TRUE
- DeclSet = "svc"
+ DeclSet = {1, 2, 3}
  MaxDefs = 2
  Vias = {"exec", "run"}
- Acts = {"define", "del", "rebind", "push", "pop", "clear", "reload", "close", "unload", "start", "fire", "set", "call", "out"}
+ Acts = {"define", "del", "rebind", "push", "pop", "clear", "reload", "close", "unload", "boot", "fire", "set", "call", "out"}
 VIEW View
 INVARIANT ActiveIffReferencedAndLoaded
 INVARIANT TablesEqualUnionOfActive
